@@ -2,6 +2,7 @@ mod case;
 mod driver;
 mod exec;
 mod gen;
+mod gen14;
 mod json;
 mod known;
 mod minimize;
@@ -64,6 +65,7 @@ fn main() {
          let check = args.get(1).cloned().unwrap();
          let seed: u64 = args.get(2).unwrap().parse().unwrap();
          let index: u64 = args.get(3).unwrap().parse().unwrap();
+         exec::pin_process(1);
          println!("{}", serde_json::to_string_pretty(&gen::gen_case(&check, false, seed, index)).unwrap());
       },
       Some("programs") =>
